@@ -18,6 +18,7 @@ import (
 	"fmt"
 	"hash/fnv"
 	"os"
+	"regexp"
 	"runtime/debug"
 	"sort"
 	"strconv"
@@ -280,11 +281,21 @@ func (s *Stats) IsLive(id string) bool {
 // liveFindingFor returns the id of a live open finding with this signature.
 func (s *Stats) liveFindingFor(sig string) string {
 	for id, sg := range s.liveSig {
-		if sg == sig && s.live[id] {
+		if s.live[id] && sigMatches(sg, sig) {
 			return id
 		}
 	}
 	return ""
+}
+
+// sigMatches compares a finding's signature with a failure's: exact, or a
+// regular expression when the finding's signature starts with "re:".
+func sigMatches(findingSig, sig string) bool {
+	if strings.HasPrefix(findingSig, "re:") {
+		re, err := regexp.Compile(findingSig[3:])
+		return err == nil && re.MatchString(sig)
+	}
+	return findingSig == sig
 }
 
 // Probes runs the probe of every listed finding of this property through run
@@ -297,7 +308,7 @@ func (s *Stats) Probes(t *testing.T, run func(raw json.RawMessage) *Failure) {
 		fail := safeRun(run, f.Probe)
 		switch f.Status {
 		case "open":
-			if fail != nil && fail.Sig == f.Sig {
+			if fail != nil && sigMatches(f.Sig, fail.Sig) {
 				s.mu.Lock()
 				s.live[f.ID] = true
 				s.liveSig[f.ID] = f.Sig
